@@ -174,7 +174,119 @@ class DeMorgan(ast.NodeTransformer):
         return node
 
 
-TRANSFORMS = {'rename': [RenameLocals], 'reformat': [], 'flipcmp': [FlipCompare], 'swapif': [SwapIf], 'all': [RenameLocals, FlipCompare, SwapIf], 'augexpand': [AugExpand], 'reorder': [Reorder], 'retlocal': [RetLocal], 'demorgan': [DeMorgan]}
+class TernaryToIf(ast.NodeTransformer):
+    """x = a if c else b  ->  if c: x = a  else: x = b     (simple assignments whose value is a conditional expression)"""
+
+    def _fix(self, stmts):
+        out = []
+        for st in stmts:
+            if isinstance(st, ast.Assign) and isinstance(st.value, ast.IfExp) and len(st.targets) == 1 and isinstance(st.targets[0], ast.Name):
+                import copy
+                a = ast.Assign(targets=[copy.deepcopy(st.targets[0])], value=st.value.body)
+                b = ast.Assign(targets=[copy.deepcopy(st.targets[0])], value=st.value.orelse)
+                out.append(ast.copy_location(ast.If(test=st.value.test, body=[a], orelse=[b]), st))
+            else:
+                out.append(st)
+        return out
+
+    def generic_visit(self, node):
+        super().generic_visit(node)
+        for fld in ('body', 'orelse', 'finalbody'):
+            v = getattr(node, fld, None)
+            if isinstance(v, list) and v and isinstance(v[0], ast.stmt):
+                setattr(node, fld, self._fix(v))
+        return node
+
+
+class ChainSplit(ast.NodeTransformer):
+    """a <= b < c  ->  a <= b and b < c   (middle operand a plain name, attribute or constant)"""
+
+    def visit_Compare(self, node):
+        self.generic_visit(node)
+        if len(node.ops) == 2 and isinstance(node.comparators[0], (ast.Name, ast.Constant)):
+            import copy
+            mid = node.comparators[0]
+            l = ast.Compare(left=node.left, ops=[node.ops[0]], comparators=[mid])
+            r = ast.Compare(left=copy.deepcopy(mid), ops=[node.ops[1]], comparators=[node.comparators[1]])
+            return ast.copy_location(ast.BoolOp(op=ast.And(), values=[l, r]), node)
+        return node
+
+
+def _jumps(stmts):
+    return bool(stmts) and isinstance(stmts[-1], (ast.Return, ast.Raise, ast.Continue, ast.Break))
+
+
+class ElseAfterJump(ast.NodeTransformer):
+    """if c: ...; return/raise     ->  if c: ...; return/raise
+       rest                            else: rest                    (guard clause folded into if/else)"""
+
+    def _fix(self, stmts):
+        for i, st in enumerate(stmts):
+            if isinstance(st, ast.If) and not st.orelse and _jumps(st.body) and i + 1 < len(stmts):
+                rest = self._fix(stmts[i + 1:])
+                return stmts[:i] + [ast.copy_location(ast.If(test=st.test, body=st.body, orelse=rest), st)]
+        return stmts
+
+    def generic_visit(self, node):
+        super().generic_visit(node)
+        for fld in ('body', 'orelse', 'finalbody'):
+            v = getattr(node, fld, None)
+            if isinstance(v, list) and v and isinstance(v[0], ast.stmt) and not isinstance(node, ast.ClassDef):
+                setattr(node, fld, self._fix(v))
+        return node
+
+
+class DropElseAfterJump(ast.NodeTransformer):
+    """if c: ...; return/raise  else: rest   ->   if c: ...; return/raise ; rest      (the converse)"""
+
+    def _fix(self, stmts):
+        out = []
+        for st in stmts:
+            if isinstance(st, ast.If) and st.orelse and _jumps(st.body):
+                out.append(ast.copy_location(ast.If(test=st.test, body=st.body, orelse=[]), st))
+                out.extend(self._fix(st.orelse))
+            else:
+                out.append(st)
+        return out
+
+    def generic_visit(self, node):
+        super().generic_visit(node)
+        for fld in ('body', 'orelse', 'finalbody'):
+            v = getattr(node, fld, None)
+            if isinstance(v, list) and v and isinstance(v[0], ast.stmt) and not isinstance(node, ast.ClassDef):
+                setattr(node, fld, self._fix(v))
+        return node
+
+
+class ExtractCond(ast.NodeTransformer):
+    """if <compound test>: ...  ->  cond_N = <compound test>; if cond_N: ...   (plain `if` statements, not elif arms)"""
+
+    def __init__(self):
+        self.n = 0
+
+    def _fix(self, stmts):
+        out = []
+        for st in stmts:
+            if isinstance(st, ast.If) and isinstance(st.test, (ast.BoolOp, ast.Compare)) \
+                    and not any(isinstance(n, (ast.NamedExpr, ast.Yield, ast.Await)) for n in ast.walk(st.test)):
+                self.n += 1
+                nm = f'cond_{self.n}'
+                out.append(ast.copy_location(ast.Assign(targets=[ast.Name(id=nm, ctx=ast.Store())], value=st.test), st))
+                out.append(ast.copy_location(ast.If(test=ast.Name(id=nm, ctx=ast.Load()), body=st.body, orelse=st.orelse), st))
+            else:
+                out.append(st)
+        return out
+
+    def generic_visit(self, node):
+        super().generic_visit(node)
+        for fld in ('body', 'finalbody'):
+            v = getattr(node, fld, None)
+            if isinstance(v, list) and v and isinstance(v[0], ast.stmt) and not isinstance(node, ast.ClassDef):
+                setattr(node, fld, self._fix(v))
+        return node
+
+
+TRANSFORMS = {'rename': [RenameLocals], 'reformat': [], 'flipcmp': [FlipCompare], 'swapif': [SwapIf], 'all': [RenameLocals, FlipCompare, SwapIf], 'augexpand': [AugExpand], 'reorder': [Reorder], 'retlocal': [RetLocal], 'demorgan': [DeMorgan], 'ternary': [TernaryToIf], 'chainsplit': [ChainSplit], 'elsejump': [ElseAfterJump], 'dropelse': [DropElseAfterJump], 'extractcond': [ExtractCond]}
 
 
 
